@@ -131,7 +131,7 @@ def run_history(sc: dict) -> dict:
                     for _ in range(e.kids):
                         if st['ndisp'] >= cap:
                             break
-                        c = disp(mk(d=e.d / 2, kids=max(0, e.kids - 2) if e.kids <= 6 else 0, aw=e.aw, depth=e.depth + 1, event_timeout=e.event_timeout), e)
+                        c = disp(mk(d=e.d / 2, kids=(max(1 if maxdepth > 2 else 0, e.kids - 2) if e.kids <= 6 else 0), aw=e.aw, depth=e.depth + 1, event_timeout=e.event_timeout), e)
                         if c is not None and e.aw:
                             pend.append(c)
                 for c in pend:
